@@ -144,12 +144,13 @@ def render_order(g):
 
 
 class RCase:
-    def __init__(self, g, algo, tt, ps, pse, tag, params=None):
+    def __init__(self, g, algo, tt, ps, pse, tag, params=None, text=None):
         self.g = g
         self.algo, self.tt, self.ps, self.pse = algo, tt, ps, pse
         self.tag = tag
         self.params = params or {}
-        self.text = g.render()
+        self.finding = None
+        self.text = text if text is not None else g.render()
         self.raw_text = Gram(g.prods, g.terms).render()
         self.ans = None          # answer of the compilation under test
         self.raw = None          # parsed dump of the raw compilation
@@ -361,6 +362,22 @@ def compile_all(cases):
     return cases
 
 
+def driver_wired(rep, cases):
+    """the Lean driver must know the command `resolve` (Main.lean dispatch to Driver/Resolve.lean)"""
+    bad = [c for c in cases if c.model in ("bad-request", "driver-crash")]
+    ok = not bad
+    rep.oblige("Lean driver answers `resolve` requests", ok,
+               "" if ok else f"{len(bad)} requests answered {bad[0].model!r}: add `| \"resolve\" => (st, handleResolve rest)` "
+                             "and `import Rustemo.Driver.Resolve` to lean/Main.lean")
+    if not ok:
+        rep.violation({"why": "the Lean driver does not answer `resolve` requests (command not wired into Main.lean or driver "
+                              "crashed); correspondence corr:resolve cannot be checked", "answer": bad[0].model,
+                       "grammar": bad[0].text, "settings": " ".join(bad[0].settings())}, no_input=True)
+        for c in cases:
+            c.model = None
+    return ok
+
+
 def fmt_act(a):
     return "S" if a[0] == "S" else ("A" if a[0] == "A" else f"R{a[1]}.{a[2]}")
 
@@ -513,6 +530,9 @@ def classify(c, cell, real):
                         pairwise_justified(st, shift, ta_used or ta, shp, cands, r2):
                     return True
         return False
+    # N1: LR, EMPTY reductions of equal priority: one that the rule keeps is missing
+    if n1_shape(doc_cell(st, shift, ta, shp, cands)):
+        return KEY_N1
     # F1: the terminal's own associativity is consulted (equal priority) and was applied inverted
     if shift and ta != "N" and any(k["prio"] == shp for k in cands):
         swapped = {"L": "R", "R": "L"}[ta]
@@ -520,9 +540,6 @@ def classify(c, cell, real):
         if sorted(real) == sorted(exp) or n1_shape(exp, swapped) or \
                 (len(cands) > 1 and pairwise_justified(st, shift, swapped, shp, cands, real)):
             return KEY_F1
-    # N1: LR, EMPTY reductions of equal priority: one that the rule keeps is missing
-    if n1_shape(doc_cell(st, shift, ta, shp, cands)):
-        return KEY_N1
     return None
 
 
@@ -677,12 +694,8 @@ def ops_cases(rng, tier):
     for nops in (2, 3):
         for prios in itertools.product((1, 2, 3), repeat=nops):
             for assocs in itertools.product("LR", repeat=nops):
-                # equal priority with different associativity is not a conventional operator table
-                groups = {}
-                for p, a in zip(prios, assocs):
-                    groups.setdefault(p, set()).add(a)
-                if any(len(v) > 1 for v in groups.values()):
-                    continue
+                # (equal priority with different associativity is included: the operator on the left,
+                # i.e. the production being reduced, decides — in the rule and in precedence climbing)
                 for unary in (False, True):
                     if nops == 3 and unary and tier == "quick" and rng.random() < 0.5:
                         continue
@@ -786,8 +799,8 @@ def conf_cases(tier):
 
 def random_cases(rng, tier):
     cases = []
-    n_multi = 1500 if tier == "quick" else 25000
-    n_rand = 2500 if tier == "quick" else 50000
+    n_multi = 3000 if tier == "quick" else 25000
+    n_rand = 6000 if tier == "quick" else 50000
     for _ in range(n_multi):
         g = multi_grammar(rng)
         algo = rng.choice(["LR", "GLR"])
@@ -821,10 +834,38 @@ def raw_cases(cases):
     return out
 
 
+def c05_findings():
+    if os.environ.get("C05_FINDINGS_FILE"):       # development: a scratch findings file
+        fs = json.load(open(os.environ["C05_FINDINGS_FILE"]))["findings"]
+    else:
+        fs = common.load_findings()
+    return [f for f in fs if f.get("property") == "C05"]
+
+
 def known_keys():
     if os.environ.get("C05_ASSUME_KNOWN"):        # development: as if the proposed entries were listed
         return {KEY_F1, KEY_F9, KEY_N1}
-    return {f["key"] for f in common.load_findings() if f.get("property") == "C05" and f.get("status") == "known"}
+    return {f["key"] for f in c05_findings() if f.get("status") == "known"}
+
+
+def case_of(grammar, settings, tag):
+    st = settings.split(" ")
+    pse = st[3] == "1" or (st[3] == "-" and st[0] != "GLR")
+    return RCase(parse_annotated(grammar), st[0], st[1] if st[1] != "-" else ("LALR_RN" if st[0] == "GLR" else "LALR_PAGER"),
+                 st[2] == "1", pse, tag, text=grammar)
+
+
+def corpus_cases():
+    """witnesses of listed findings run first: `known` ones are replayed (KNOWN-FINDING while they fail),
+    `fixed` ones are ordinary cases (a regression is a violation)"""
+    out = []
+    for f in c05_findings():
+        w = f.get("witness")
+        if w and "grammar" in w:
+            c = case_of(w["grammar"], w.get("settings", "LR LALR_PAGER 0 1"), "corpus:" + f["key"])
+            c.finding = f
+            out.append(c)
+    return out
 
 
 def evaluate(rep, cases, proofs_ok, want_exhaustive=True):
@@ -868,8 +909,15 @@ def evaluate(rep, cases, proofs_ok, want_exhaustive=True):
             corr_breaks.append((cases[0], f"conf family no longer realises the whole S/R decision domain "
                                           f"({len(sr_seen & full)}/{len(full)})"))
     for key, hits in known_hits.items():
-        c, w = min(hits, key=lambda h: len(h[0].text))
-        rep.known_finding(key, f"{len(hits)} cells/cases, e.g. [{' '.join(c.settings()[:4])}] {c.text!r}: {w}")
+        wit = [h for h in hits if h[0].finding is not None and h[0].finding.get("key") == key]
+        c, w = wit[0] if wit else min(hits, key=lambda h: len(h[0].text))
+        rep.known_finding(key, f"{'witness still fails' if wit else 'class hit'} ({len(hits)} cells/cases in this run), "
+                               f"[{' '.join(c.settings()[:4])}] {c.text!r}: {w}")
+    for c in cases:
+        f = c.finding
+        if f is not None and f.get("status") == "known" and not any(h[0] is c for h in known_hits.get(f["key"], [])):
+            rep.notes.append(f"finding {f['key']} no longer reproduces on its witness (retire the entry by hand)")
+            print(f"NOTE property=C05 finding {f['key']} no longer reproduces on its witness")
     rep.counters["corr_breaks"] = len(corr_breaks)
     rep.counters["oracle_failures"] = len(failures)
     # report: at most 3, smallest first, one per suspected class first
@@ -909,9 +957,10 @@ def run(rep, tier, seed):
             rep.oblige("cargo build harness/dyn against /repo", False, log[-1500:])
             rep.violation({"broken": "harness build", "log": log[-3000:]}, no_input=True)
             return
-    cases = conf_cases(tier) + random_cases(rng, tier)
+    cases = corpus_cases() + conf_cases(tier) + random_cases(rng, tier)
     cases += raw_cases(cases)
     compile_all(cases)
+    driver_wired(rep, cases)
     rep.cov["rule"] = (
         "conf-sr: one tiny grammar per (priority order <,=,>) x production assoc x terminal assoc x EMPTY/non-empty x nops x "
         "nopse, each compiled under {LR,GLR} x prefer_shifts x prefer_shifts_over_empty = 1728 S/R decisions (exhaustive); "
@@ -940,7 +989,6 @@ def replay(rep, path):
     if not os.environ.get("C05_VDYN"):
         build_harness()
     if p.get("tag") == "ops":
-        rep.violation(dict(p, note="replay of ops cases: rerun ./check C05"), no_input=True) if False else None
         text = p["grammar"]
         st = p.get("settings", "LR LALR_PAGER 0 1").split(" ")
         js = [f"G {st[0]} {st[1]} {st[2]} {st[3]} - - - - - - " + hx(text)]
@@ -952,10 +1000,10 @@ def replay(rep, path):
         if same or (conflicts and "input" not in p) or not ans[0].startswith("dump ok "):
             rep.violation(dict(p, replayed=ans[-1][:300]))
         return
-    g = parse_annotated(p["grammar"])
-    st = p["settings"].split(" ")
-    c = RCase(g, st[0], st[1], st[2] == "1", st[3] == "1", p.get("tag", "replay"))
+    c = case_of(p["grammar"], p["settings"], p.get("tag", "replay"))
     compile_all([c])
+    if not driver_wired(rep, [c]):
+        return
     evaluate(rep, [c], True, want_exhaustive=False)
 
 
